@@ -52,7 +52,7 @@ type universe struct {
 	mkU     rt.Value
 	mkW     rt.Value
 	freeEq  map[byte]bool // kind C/U/X: golua says closures of that kind are equal
-	cands   map[byte]int // next candidate number per kind
+	cands   map[byte]int  // next candidate number per kind
 	pending map[string][]rt.Value
 }
 
@@ -401,7 +401,7 @@ func (u *universe) refName(k reftable.Key) string {
 	case reftable.KRef:
 		for _, kind := range []byte{'C', 'U', 'X'} {
 			if k.ID == freeClass(kind) && u.freeEq[kind] {
-				return string(kind) + "*"
+				return string(kind) + "(any)"
 			}
 		}
 		for p, rk := range u.refKey {
